@@ -447,6 +447,7 @@ func implC07Global(toks []string) string {
 		return "abort:" + c07san(err.Error())
 	}
 	var out []string
+	dirty := false // the global object was made non-extensible: the VM is not reused
 	for i, tok := range toks {
 		f := strings.Split(tok, ".")
 		prog := ""
@@ -465,6 +466,12 @@ func implC07Global(toks []string) string {
 			prog = "eval('function " + name + "(){}'); 'ok'"
 		case "X":
 			prog = "(delete " + name + ")?'t':'f'"
+		case "PE":
+			prog = "Object.preventExtensions(this); 'ok'"
+			dirty = true
+		case "SL":
+			prog = "Object.seal(this); 'ok'"
+			dirty = true
 		case "D":
 			prog = "Object.defineProperty(this,'" + name + "'," + c07Desc(f[1:], i%6) + "); 'ok'"
 		default:
@@ -487,7 +494,9 @@ func implC07Global(toks []string) string {
 		}
 		out = append(out, res+"|"+o.String())
 	}
-	c07Pool.Put(w)
+	if !dirty {
+		c07Pool.Put(w)
+	}
 	if len(out) == 0 {
 		return "-"
 	}
@@ -636,8 +645,50 @@ func implC07Builtin(b, pol string) string {
 	return c07RunDirty(src)
 }
 
+// implC07Map: Object.defineProperties / Object.create with a descriptor map whose members have side effects.
+func implC07Map(fn, ents string) string {
+	var b strings.Builder
+	b.WriteString("(function(){ var M={}, o={}, VD={value:1,writable:true,enumerable:true,configurable:true}, out, r;\n")
+	es := strings.Split(ents, ",")
+	nameOf := func(i string) string {
+		k, err := strconv.Atoi(i)
+		if err != nil || k < 0 || k >= len(es) {
+			return "zz"
+		}
+		return c07Name(strings.Split(es[k], ":")[0])
+	}
+	for _, e := range es {
+		p := strings.Split(e, ":")
+		n := c07Name(p[0])
+		switch {
+		case p[1] == "p":
+			b.WriteString("M." + n + "=VD;\n")
+		case p[1] == "b":
+			b.WriteString("M." + n + "=5;\n")
+		case p[1] == "t":
+			b.WriteString("Object.defineProperty(M,'" + n + "',{get:function(){throw new TypeError('x');},enumerable:true,configurable:true});\n")
+		case p[1][0] == 'd':
+			b.WriteString("Object.defineProperty(M,'" + n + "',{get:function(){delete M." + nameOf(p[1][1:]) + ";return VD;},enumerable:true,configurable:true});\n")
+		case p[1][0] == 'h':
+			b.WriteString("Object.defineProperty(M,'" + n + "',{get:function(){Object.defineProperty(M,'" + nameOf(p[1][1:]) + "',{enumerable:false});return VD;},enumerable:true,configurable:true});\n")
+		default:
+			return "bad-op"
+		}
+	}
+	if fn == "dp" {
+		b.WriteString("try{ Object.defineProperties(o,M); r=o; out='ok'; }catch(e){ out=(e instanceof TypeError)?'T':'E:'+e.name; r=o; }\n")
+	} else {
+		b.WriteString("try{ r=Object.create({},M); out='ok'; }catch(e){ out=(e instanceof TypeError)?'T':'E:'+e.name; r=null; }\n")
+	}
+	b.WriteString("return 'clean:'+out+'|'+(r?NL(Object.getOwnPropertyNames(r)):'-'); })()")
+	return c07RunDirty(b.String())
+}
+
 func implC07(line string) string {
 	f := strings.Fields(line)
+	if len(f) == 3 && f[0] == "m" {
+		return implC07Map(f[1], f[2])
+	}
 	if len(f) == 6 && f[0] == "w" {
 		return implC07Wrapper(f)
 	}
@@ -1022,7 +1073,7 @@ func genC07(c *h.Ctx) {
 		c.Add("a "+strings.Join(toks, " "), "arguments:history")
 	}
 	// (2d) global bindings: every pair / triple of the binding operations, then delete; and random ones
-	gops := []string{"I.4", "I.5", "V", "Ev", "W.4", "F", "Ef", "X", "D.0.0.0.6.-.-", "D.1.1.1.6.-.-", "D.1.0.1.6.-.-", "D.0.1.0.6.-.-", "D.1.1.-.-.0.1", "D.1.0.-.-.0.1", "D.1.0.-.-.0.-", "D.-.-.0.-.-.-"}
+	gops := []string{"I.4", "I.5", "V", "Ev", "W.4", "F", "Ef", "X", "PE", "SL", "D.0.0.0.6.-.-", "D.1.1.1.6.-.-", "D.1.0.1.6.-.-", "D.0.1.0.6.-.-", "D.1.1.-.-.0.1", "D.1.0.-.-.0.1", "D.1.0.-.-.0.-", "D.-.-.0.-.-.-"}
 	for _, a := range gops {
 		c.Add("g "+a+" X", "global:1")
 		for _, b2 := range gops {
@@ -1042,7 +1093,7 @@ func genC07(c *h.Ctx) {
 				c.Dist[k2]++
 				toks = append(toks, "D."+d)
 			} else {
-				toks = append(toks, gops[r.Intn(8)])
+				toks = append(toks, gops[r.Intn(10)])
 			}
 		}
 		c.Add("g "+strings.Join(toks, " "), "global:history")
@@ -1092,6 +1143,18 @@ func genC07(c *h.Ctx) {
 	for b := range c07Builtins {
 		for _, pol := range []string{"setter", "readonly"} {
 			c.Add("b "+b+" "+pol, "builtin-creates")
+		}
+	}
+	// (2g) defineProperties / create with a side-effecting descriptor map: all maps of 2 and 3 members
+	macts := []string{"p", "b", "t", "d0", "d1", "d2", "h0", "h1", "h2"}
+	for _, fn := range []string{"dp", "cr"} {
+		for _, a1 := range macts {
+			for _, a2 := range macts {
+				c.Add("m "+fn+" 0:"+a1+",1:"+a2, "descriptor-map:2")
+				for _, a3 := range macts {
+					c.Add("m "+fn+" 0:"+a1+",1:"+a2+",2:"+a3, "descriptor-map:3")
+				}
+			}
 		}
 	}
 	// (3) random histories
